@@ -9,6 +9,7 @@ import VModel.LRU
 import VModel.Spark
 import DriverPandas
 import DriverPyList
+import DriverNumpy
 
 open Lean V V.Gen
 
@@ -246,6 +247,7 @@ def handle (line : String) : Json :=
       else if op == "spark" then handleSpark req
       else if op == "pandas" then PdDrv.handle req
       else if op == "pylist" then PyDrv.handle req
+      else if op == "numpy" then NpDrv.handle req
       else if op == "ping" then Json.mkObj [("pong", true)]
       else Json.mkObj [("err", "unknown-op")]
     match req.getObjVal? "id" with
